@@ -157,3 +157,27 @@ CHECKS['C16'] = dict(
     min_counters={'quick': {'roundtrip_ok': 100000, 'fixedpoint_ok': 400000, 'repack_carried_nonempty': 100000, 'pad_impl_ok': 60000, 'lists_over_2000_entries': 200},
                   'thorough': {'roundtrip_ok': 1000000}},
 )
+
+CHECKS['C19'] = dict(
+    level='exploration',
+    rule="clip: 1..6 consecutive frames (N 0..5760, C 0..8) of generated float buffers (sines, noise, isolated peaks, plateaus above range, "
+         "growing peaks at frame edges, edge-straddling peaks, per-channel mixes; amplitudes 0.1..1e6) through opus_pcm_soft_clip with "
+         "persistent memory, interleaved vs per-channel mono calls; degenerate arguments; non-finite input. gain: an encoder stream with "
+         "forced SILK/hybrid/CELT switches, random frame sizes and optional LBRR is decoded by four twin decoders (gain 0 float, gain g "
+         "float/int16/int24; decoder rate and channels may differ from the encoder's) with random losses (PLC) and FEC calls, g from a grid "
+         "incl. both extremes or random. msgain: surround streams through multistream decoders with and without gain. Distinct = (shape "
+         "class / TOC config, call kind, transition, gain class, saturation seen, rate, channels).",
+    assumptions=COMMON_ASSUME + ["float build: the gained output must equal gain-free output x one float constant (<= 4e-7 relative), the constant within 2e-5 of 10^(g/5120) (celt_exp2 accuracy, measured maximum is in the evidence)",
+                                 "fixed-point build: gained sample within 1 LSB + 0.2% of sat16(gain-free x 10^(g/5120))"],
+    evals_counter=None,
+    runs=[
+        dict(h='h_c19.c', mode='clip', flavour='asan', n={'quick': 60000, 'thorough': 3000000}),
+        dict(h='h_c19.c', mode='gain', flavour='asan', n={'quick': 1600, 'thorough': 40000}),
+        dict(h='h_c19.c', mode='gain', flavour='prod', n={'quick': 1600, 'thorough': 40000}),
+        dict(h='h_c19.c', mode='gain', flavour='asan-fixed', n={'quick': 800, 'thorough': 20000}),
+        dict(h='h_c19.c', mode='msgain', flavour='asan', n={'quick': 600, 'thorough': 12000}),
+    ],
+    min_nontrivial={'quick': 1000, 'thorough': 2000},
+    min_counters={'quick': {'clip_frames': 100000, 'clip_continued_from_memory': 20000, 'gain_calls': 50000, 'msgain_frames': 4000},
+                  'thorough': {'clip_frames': 1000000}},
+)
